@@ -157,6 +157,11 @@ def run(chk):
                 nre += b in reordered
                 jobs.append(sc)
     chk.extra["reordered_schedules_cut_everywhere"] = nre
+    # sessions that negotiated DEFLATE compression (RFC 3749; TLExport inflates them; not RC4): every cut exports a prefix there too
+    for i in range(6 if quick else 80):
+        ver, suite = [k for k in c05.KINDS if k[1] not in (0x0005,) and k[0] != R.TLS13][i % 5]
+        jobs.append(dict(conns=[dict(ver=ver, suite=suite, seed=rng.randrange(1 << 30), shape=dict(compression=1), mss=rng.choice([None, 150]),
+                                     app=[["c", 60], ["s", rng.choice([400, 3000])], ["s", 0], ["c", 9], ["s", 77]])]))
     # two connections whose secrets travel in the capture, one secrets block per connection (a later block must not retract what an earlier one made exportable)
     for i in range(6 if quick else 60):
         ka, kb = c05.KINDS[i % len(c05.KINDS)], c05.KINDS[(i * 3 + 1) % len(c05.KINDS)]
